@@ -268,9 +268,11 @@ def _remember(exe, script_text):
                 cur = None
 
 
-def run_harness(exe, script_text, shards=None, timeout=1200, env=None, nofork=False):
+def run_harness(exe, script_text, shards=None, timeout=None, env=None, nofork=False):
     """Writes the script, runs `exe` in `shards` parallel processes, returns the list of parsed
     ndjson records grouped per execution id: {id: [records...]} (order preserved per execution)."""
+    if timeout is None:   # whole batch; the thorough tier replays far larger batches (and may share the machine)
+        timeout = int(os.environ.get("VERIF_HARNESS_TIMEOUT", "7200" if os.environ.get("VERIF_TIER_ACTIVE") == "thorough" else "1800"))
     _remember(exe, script_text)
     d = Path(tempfile.mkdtemp(prefix="h-", dir=str(scratch())))
     script = d / "script.txt"
